@@ -178,3 +178,38 @@ CHECKS['C03'] = dict(
     assumptions=['seek targets are passed in harness-owned copies', 'the canonical hash covers every field the transition functions read as of the pinned tree; the undeduplicated tree mode does not depend on it'],
     budget={'quick': 400, 'thorough': 2400},
 )
+
+_MRG = H('h_merger.c', 'asan', exclude=['mtbl/iter.c', 'mtbl/block.c', 'mtbl/reader.c', 'mtbl/merger.c'])
+CHECKS['C04'] = dict(
+    level=MC, engine='seqx',
+    technique='exhaustive enumeration of source families (every subset of a 4-key universe per source, up to 3-4 sources, reader/multi-block/invalidating user sources) drained through the real merger with a fold-tree merge function whose result reveals exactly which source values were combined',
+    text='Every family of k<=3 (thorough 4) sources, each any subset of {empty key, a, b, c}, with every combination of {merge function, none} x {dupsort, none} and four source kinds, is drained through the real merger. The merge callback returns "(v0+v1)" over unique value tags, so parsing a result yields the exact multiset of values folded - each used once - without prescribing a fold order. A callback failing for one key at its n-th invocation must make exactly the next() that would produce that key fail. User sources free their previous buffers on every call so that any stale use is an AddressSanitizer report.',
+    jobs=[
+        dict(name='drain', spec=_MRG, args=['drain']),
+        dict(name='failing-callback', spec=_MRG, args=['fail']),
+    ],
+    states_key='states', transitions_key='transitions', traces_key='executions',
+    rule='one case = (source family, source kinds, merge on/off, dupsort on/off[, failing key, nth]); signature = (options, k, number of sources holding each key, kinds)',
+    bounds={'quick': 'k<=3 sources x 16 subsets each x 4 source-kind assignments x 4 option combinations; failing callback: every key with >=2 holders x every invocation index',
+            'thorough': 'k<=4 sources'},
+    nonzero=['states', 'drains_with_merging', 'drains_with_empty_key', 'failing_callback_runs'],
+    assumptions=['order among equal keys without dupsort is unspecified and not checked', 'after a failed merge nothing further is checked (the statement fixes only that call)'],
+    budget={'quick': 300, 'thorough': 1800},
+)
+CHECKS['C05'] = dict(
+    level=MC, engine='bfs',
+    technique='explicit-state breadth-first search over the real merger iterator (state = replayed history, canonical hash of heap, look-ahead entries, cur_key/cur_val, flags and every source iterator), to a fixpoint; undeduplicated tree; exhaustive one-shot lookups',
+    text='For every family of k<=2 (thorough 3) sources over {empty key, a, b, c}, every merger iterator kind (iter, get, get_prefix, get_range over boundary arguments) with and without merge function, next and seek(k) for k over the universe and its neighbours are applied from every reachable state until closure; each step is checked against a lower-bound reference over the merged content (values compared as fold trees). This covers seeking to the key just returned, backwards after exhaustion, and onto keys that need merging, from any prior history.',
+    jobs=[
+        dict(name='bfs', spec=_MRG, args=['bfs']),
+        dict(name='tree', spec=_MRG, args=['tree']),
+        dict(name='lookup', spec=_MRG, args=['lookup']),
+    ],
+    states_key='states', transitions_key='transitions', traces_key='executions',
+    rule='a state = canonical hash of the merger iterator + source iterators + reference position; signature = (merge on/off, iterator spec, number of sources holding each key, kinds)',
+    bounds={'quick': 'k<=2 sources x 16 subsets x {reader, multi-block reader, user} x 15 iterator specs x merge on/off; 10 seek targets; fixpoint; tree depth 3; lookups: all (kind,a,b) over 10 targets',
+            'thorough': 'k<=3 sources, 4 kind assignments; tree depth 4'},
+    nonzero=['states', 'transitions', 'searches', 'lookups'],
+    assumptions=['a NULL iterator counts as the empty result'],
+    budget={'quick': 400, 'thorough': 2400},
+)
